@@ -21,9 +21,23 @@ echo "touched packages: $PKGS" >>$LOG
 echo "existing tests of touched packages: done (non-ok lines above, docker-only failures ignored)" >>$LOG
 DEMO=$(jq -r .demo_cmd $M/meta.json)
 echo "demo: $DEMO" >>$LOG
+# demo commands without their own `cp`: place the demonstration files where meta.json says (demo_files) or in the
+# package directory named by the command
+place_demo() {
+  case "$DEMO" in *"cp "*) return;; esac
+  DF=$(jq -r '(.demo_files // [])[]' $M/meta.json 2>/dev/null)
+  if [ -n "$DF" ]; then
+    for f in $DF; do mkdir -p $WT/$(dirname $f); src=$M/$(basename $f); [ -f "$src" ] || src=$(ls $M/*_test.go | head -1); cp $src $WT/$f; done
+  else
+    PKG=$(echo "$DEMO" | grep -o '\./[A-Za-z0-9_/.-]*' | grep -v '\.\.\.' | tail -1)
+    [ -n "$PKG" ] && mkdir -p $WT/$PKG && cp $M/*_test.go $WT/$PKG/
+  fi
+}
+place_demo
 ( cd $WT && bash -c "$DEMO" ) >$OUT/demo_with_patch.log 2>&1; RC1=$?
 git -C $WT apply -R $M/patch.diff
 ( cd $WT && bash -c "$DEMO" ) >$OUT/demo_without_patch.log 2>&1; RC0=$?
 echo "demo with patch rc=$RC1 (expect !=0), without patch rc=$RC0 (expect 0)" | tee -a $LOG
 cp $M/patch.diff $OUT/patch.diff; cp $M/*.go $OUT/ 2>/dev/null; cp $M/meta.json $OUT/meta.agent.json
+if grep -q "no tests to run\|no test files" $OUT/demo_without_patch.log; then echo "demo did not run (no tests found)" | tee -a $LOG; RC0=99; fi
 if [ $RC1 -ne 0 ] && [ $RC0 -eq 0 ]; then echo "RESULT confirmed" | tee -a $LOG; else echo "RESULT not-confirmed" | tee -a $LOG; fi
